@@ -11,14 +11,14 @@ M = "mirsym: symbolic execution of rustc MIR (nightly -Zunpretty=mir of the curr
 MS = "symbolic execution of rustc MIR of the real functions into SMT (z3) with SQL->SMT over a bounded symbolic lease table; inductive single step; native replay of counterexamples"
 KB = "bounded model checking (Kani/CBMC) of the compiled crate code"
 
-POOL_NOTE = ("Assumes: SQLite executes each statement and its meaning is the SQL->SMT translation of the SQL text found at the call site; wall clock non-decreasing and now + max lease < 2^32 "
-             "(year-2106 wrap outside the claim); lease table bounded as stated per obligation (every query touches the asker's rows and at most one candidate row per pool address); "
-             "externals summarised by contract (list in evidence). NOT decided: concurrent packets (tokio mutex not encoded), reply assembly in handle_pkt/handle_request "
-             "(HashMap-based, outside the encoder), durability (C18).")
+POOL_NOTE = ("Assumes: SQLite executes each statement and its meaning is the SQL->SMT translation of the SQL text found at the call site (schema: unique keys re-read from the DDL in the source); "
+             "wall clock non-decreasing and now + max lease < 2^32 (year-2106 wrap outside the claim); lease table bounded as stated per obligation (every query touches the asker's rows and at most one "
+             "candidate row per pool address); externals summarised by contract (list in evidence). Message-handling obligations (handle_pkt) replace the policy layer by an arbitrary outcome and the "
+             "request-option accessors by the decoded value of their option. NOT decided: concurrent packets (tokio mutex not encoded), option decoding/policy evaluation themselves (C11/C12), durability (C18).")
 
 CLAIMS = {
     "C01": dict(engine="mirsym", technique=MS, design="3/C01", note=POOL_NOTE,
-                text="Solver-decided for ONE allocate_address step from every lease table the representation invariant admits (<= 2 rows quick / 3 thorough, all columns symbolic), every client, requested address, pool set of <= 2 (3) symbolic addresses, min/max lease and non-decreasing clock: a granted address is not held unexpired by another client, ends up as exactly one row owned by the asker and is a pool member; the invariant is re-established; a refusal leaves the table untouched. Induction over the step covers histories of any length, pool changes between messages and restarts."),
+                text="Solver-decided for ONE allocate_address step from every lease table the representation invariant admits (<= 2 rows quick / 3 thorough, all columns symbolic), every client, requested address, pool set of <= 2 (3) symbolic addresses, min/max lease and non-decreasing clock: a granted address is not held unexpired by another client, ends up as exactly one row owned by the asker and is a pool member; the invariant is re-established; a refusal leaves the table untouched. Induction over the step covers histories of any length, pool changes between messages and restarts. Plus handle_pkt (DISCOVER and REQUEST) from MIR on top of the pool model: yiaddr is the address whose row the pool wrote for the asking client, and the pool is asked on behalf of the client identifier."),
     "C02": dict(engine="kani+mirsym", technique=KB + " (prefix arithmetic); " + MS + " (pool membership of every grant)", design="3/C02",
                 text="Solver-decided: Prefix4 / Ipv4Subnet network, netmask, broadcast and containment equal mask arithmetic for all addresses and prefix lengths; every address granted by allocate_address is a member of the address set handed down by the policy layer (all grant paths, inductive step as C01).",
                 note="NOT decided (outside both engines: HashSet construction inside iterator closures, YAML walker): that build_default_config / apply-subnet / apply-range expand to exactly the documented host set, reservation subtraction, draining a pool through real packets. " + POOL_NOTE),
@@ -38,14 +38,14 @@ CLAIMS = {
                 text="Solver-decided over all addresses and prefix lengths (host bits free): Prefix4/Prefix6/Prefix::contains for v4, v6 and v4-mapped clients equals mask semantics on the written prefix; require_permission / Acl::check on rule lists of bounded concrete shape (<= 3 rules, subnet lists of 0..2 prefixes, unix flag absent/true/false) with symbolic contents, network and unix-socket clients, all 4 operations: granted <=> the first matching rule has the permission bit; no match => NotAuthenticated; default_acls. (mirsym) the DNS entry point DnsAclHandler::handle_query (async body lifted verbatim): dns-recursion is checked exactly once for every query whatever RD/type/port, a refused client gets RefusedByAcl and never reaches routing, cache or upstream.",
                 note="NOT decided: which permission each HTTP path asks for (hyper request types and a DhcpService holding sockets cannot be built under Kani; coroutine MIR outside the encoder). In the mirsym obligation require_permission's verdict is an arbitrary input (it is decided by the Kani harnesses). Rule lists bounded as stated per obligation."),
     "C09": dict(engine="mirsym", technique=MS, design="3/C09", note=POOL_NOTE + " Known finding F-C09-1 (known_findings.json) is reported, not raised.",
-                text="Solver-decided on the same inductive step as C01: a client holding an unexpired lease inside the pool gets one of those addresses (the named one if it holds it); a request is refused only with NoAssignableAddress and only if every pool address is held, unexpired, by another client. The claims are checked separately with and without the pre-state condition of known finding F-C09-1, so any violation outside that condition is still raised."),
-    "C10": dict(engine="mirsym", technique=MS, design="3/C10", note=POOL_NOTE + " NOT decided: that the OFFER/ACK actually carries option 51 (reply assembly is HashMap-based, outside the encoder).",
-                text="Solver-decided on the same inductive step: the lease duration returned by the pool lies within [min, max] for every symbolic min <= max; the stored row has start = reply time and expiry = start + advertised lease without wrap (so recorded_expiry - recorded_start = L and recorded_expiry >= t + L); no arithmetic panic (rustc's overflow assertions are kept as obligations) on any path, for any renewal rhythm (arbitrary pre-state row)."),
+                text="Solver-decided on the same inductive step as C01: a client holding an unexpired lease inside the pool gets one of those addresses (the named one if it holds it); a request is refused only with NoAssignableAddress and only if every pool address is held, unexpired, by another client; handle_pkt hands the pool ciaddr if set, else the requested-address option (REQUEST) / the requested-address option (DISCOVER). The claims are checked separately with and without the pre-state condition of known finding F-C09-1, so any violation outside that condition is still raised."),
+    "C10": dict(engine="mirsym", technique=MS, design="3/C10", note=POOL_NOTE,
+                text="Solver-decided on the same inductive step: the lease duration returned by the pool lies within [min, max] for every symbolic min <= max; the stored row has start = reply time and expiry = start + advertised lease without wrap (so recorded_expiry - recorded_start = L and recorded_expiry >= t + L); no arithmetic panic (rustc's overflow assertions are kept as obligations) on any path, for any renewal rhythm (arbitrary pre-state row). Plus handle_pkt from MIR: every OFFER and every ACK carries option 51, its value equals recorded expiry - recorded start and lies within [min, max], also when a matching policy tries to override option 51."),
     "C12": dict(technique=KB + " of the DHCP codec kernels and the Ethernet/IPv4/UDP frame builder", design="3/C12",
                 text="Solver-decided: get_broadcast_flag <=> flags & 0x8000 for all 65536 flag values; serialise_option output decodes (RFC 2132/3396 reference decoder in the harness) to the original value for lengths {0,1,2,7,255,256} (300/511 thorough); fixed-header parse(serialise(m)) = m for all header values (hlen 6 quick; 0 and 16 thorough); new_udp4 frames for payloads 0..2 (3,4,7 thorough): layout, lengths, addresses, ports, payload, verifying IPv4 and UDP checksums against an independent summation (thorough tier: frame harnesses need 4-8 min each).",
                 note="NOT decided: decoding of option multisets through the real parse_options and encoding from the real map (HashMap: out of CBMC's reach) - the decoder side is a reference decoder; payloads > 7 octets; which destination recvdhcp chooses (async socket code; only the flag predicate is decided). UDP-checksum harnesses exceed 14 GB at unwind 12 and are reported inconclusive where they do."),
-    "C13": dict(engine="mirsym", technique=MS, design="3/C13", note=POOL_NOTE + " NOT decided: the message-type dispatch and foreign-server-id rejection in handle_pkt/handle_request and the echoed header fields (HashMap-based option access, outside the encoder).",
-                text="Solver-decided for the lease-store half of C13 on the inductive step: a successful allocation changes only the row of the granted address, a refused one changes nothing (no write is executed on any error path)."),
+    "C13": dict(engine="mirsym", technique=MS, design="3/C13", note=POOL_NOTE,
+                text="Solver-decided: (pool step) a successful allocation changes only the row of the granted address, a refused one changes nothing. (handle_pkt from MIR, every header field, message type 0..255/absent, server-id absent/any, one server id) only DISCOVER and REQUEST are answered; a REQUEST naming a server only if it names one of this server's ids; every unanswered message leaves the table untouched (no write executed); the reply echoes xid, flags, giaddr, chaddr with op = BOOTREPLY, is OFFER/ACK, carries a server identifier naming this server (also when a policy tries to override option 54), and the store changes only at the row of yiaddr."),
     "C15": dict(engine="kani+mirsym", technique=KB + " of the suffix relation and ordering kernels; symbolic execution of rustc MIR into SMT (z3) of the lifted route-selection loop with native replay", design="3/C15",
                 text="Solver-decided: Domain::ends_with equals the whole-label, ASCII-case-insensitive suffix relation for 3-label names against suffixes of 0..4 labels with all octets symbolic (so every case mix); compare_longest_suffix orders longer suffixes first, antisymmetric, Equal only for identical suffixes. (mirsym) the selection loop and action dispatch of DnsRouteHandler::handle_query (async body lifted verbatim, executed from MIR together with ends_with and compare_longest_suffix): for 3 routes whose suffix lengths range over every ordering of 0..3 labels (16 shapes quick, all 64 thorough), all octets, actions and RD symbolic: outcome = action of the matching suffix with most labels; forge-nxdomain never goes upstream; forward only to that route's server and only with RD; no match = no route.",
                 note="Assumes the syntactic lifting preserves the body (lock = identity, next handler = recording stub, config/message replaced by views holding exactly the fields read). NOT decided: which upstream socket actually receives the query, multi-octet labels beyond the Kani kernel's bounds, > 3 routes. Equal-length suffixes with different actions are documented-silent and left unconstrained."),
